@@ -15,13 +15,16 @@ CHECKS = {
     # id: (level, text, technique, design_ref)
     "C01": ("exploration",
             BOUNDED % "01" + "get_nodes(mustexist=True|False)/exists compared with spec.query (node identity + order, both notations) over all documents "
-            "<= 4 nodes x the segment vocabulary.  Deductive part: the handlers it rests on are verified for safety under C15; their functional "
-            "post-conditions are not yet discharged, so nothing is claimed as proved here.",
+            "<= 4 nodes x the segment vocabulary.  Deductive part: the handlers it rests on are verified for safety under C15; functional "
+            "post-conditions are discharged for the KEY handler (hash, integer-key mismatch, list index: exactly this child; pass-through: each "
+            "element handed on with its own coordinates) and the unfiltered wildcard; the other handlers are not, so nothing is claimed as proved here.",
             "bounded run-time contract check of the real query API against an executable spec (stand-in for the deductive handler post-conditions)",
             "DESIGN.md §6 C01, Appendix A"),
     "C02": ("exploration",
             BOUNDED % "02" + "parent/parentref/ancestry/reported-path re-resolution of every result of every query, keys over the escapable punctuation set. "
-            "Deductive part: YAMLPath.__add__ proved total and non-mutating in shape (C15 contract); wf_step site obligations not yet attached.",
+            "Deductive part: YAMLPath.__add__ proved total and non-mutating (C15 contract); the wf_step clauses (node is parent[parentref], ancestry = incoming + "
+            "(parent, ref) as a NEW list, path = incoming + rendered reference as a NEW path, recorded segment) are discharged at the yield sites of the KEY "
+            "handler and the unfiltered wildcard; the remaining handlers are bounded only.",
             "bounded run-time contract check (wf + re-query of every result)",
             "DESIGN.md §6 C02"),
     "C03": ("exploration",
@@ -50,7 +53,9 @@ CHECKS = {
             "bounded round-trip check; totality of the stringifier functions proved by pyvc",
             "DESIGN.md §6 C08"),
     "C09": ("exploration",
-            BOUNDED % "09" + "deep snapshot before/after every read call incl. collector expressions; creation of missing tails against a plain-data model.",
+            BOUNDED % "09" + "deep snapshot before/after every read call incl. collector expressions (the same hash collected twice included); creation of missing "
+            "tails against a plain-data model (padding length and padding-node identity).  Deductive part: the creation driver _get_optional_nodes is verified for "
+            "safety under C15 with its heap writes modelled; its functional post-condition (exactly the missing tail) is not discharged.",
             "bounded run-time contract check (snapshot purity, creation model)",
             "DESIGN.md §6 C09"),
     "C10": ("exploration",
@@ -82,9 +87,11 @@ CHECKS = {
             "DESIGN.md §6 C14"),
     "C15": ("other",
             "Mixed. PROVED (for all documents, paths and indexes, modulo the listed class invariants of parsed paths): the dispatcher, the KEY, INDEX/slice, "
-            "ANCHOR, SEARCH, match-all (3), traversal, keyword-search relay handlers, the required-match driver, node_is_aoh, YAMLPath.__add__, "
-            "SearchKeywordTerms.parameters, search_matches, typed_value raise nothing but YAMLPathException (K1 at every subscript/int()/in/ordering/"
-            "attribute site).  BOUNDED only: collectors, the seven keyword scans, _get_optional_nodes (exception-type monitor over documents x paths).",
+            "ANCHOR, SEARCH, match-all (3), traversal, keyword-search relay handlers, the required-match driver AND the optional-match / creation driver "
+            "_get_optional_nodes (heap writes modelled; list-padding loop invariant), node_is_aoh, YAMLPath.__add__, SearchKeywordTerms.parameters, "
+            "search_matches, typed_value raise nothing but YAMLPathException (K1 at every subscript/int()/in/ordering/attribute site).  BOUNDED only: "
+            "collectors, the seven keyword scans, the ruamel node builders (exception-type monitor over documents x generated paths, required and optional "
+            "mode, plus every string of length <= 4 over the syntax alphabet that the parser accepts).",
             "contract-based deductive verification of the evaluator handlers (pyvc, z3+cvc5) + bounded exception-type monitor for the functions outside the subset",
             "DESIGN.md §6 C15"),
     "C16": ("exploration",
